@@ -329,13 +329,25 @@ def rule_loop(ctx):
            "no single cycle over the configured transports", start.loc(gens[0]) if gens else start.loc())
     ctx.require(ok, "_start: itertools.cycle(self._transports) not found")
     gen_name = gens[0].targets[0].id
-    cand = [s_ for s_ in walk_no_defs(start.node) if isinstance(s_, ast.Assign) and isinstance(s_.targets[0], ast.Name) and isinstance(s_.value, ast.List) and len(s_.value.elts) == 1]
-    ctx.require(len(cand) >= 1, "_start: the one-element candidate cell not found")
-    cand_name = None
-    for c_ in cand:
-        if any(isinstance(x, ast.Subscript) and norm.text(x.value) == c_.targets[0].id and isinstance(x.ctx, ast.Store) for x in ast.walk(tc.node)):
-            cand_name = c_.targets[0].id
-    ctx.require(cand_name is not None, "transport_check: candidate store not found")
+    # the holder through which transport_check publishes the chosen transport to attempt_connect / handle_connect_error: what attempt_connect
+    # hands to _connect_once -- a one-element list shared by the closures (`holder[0]`) or a variable of _start rebound with `nonlocal`
+    co0 = [c for c in calls_in(ac.node) if any(is_self_attr(a, "_connect_once") for a in c.args) or self_call(c, "_connect_once")]
+    ctx.require(len(co0) == 1, "attempt_connect: _connect_once hand-off not found")
+    outer_names = {t_.id for s_ in walk_no_defs(start.node) if isinstance(s_, ast.Assign) for t_ in s_.targets if isinstance(t_, ast.Name)}
+    holder = None
+    for a_ in co0[0].args:
+        if isinstance(a_, ast.Subscript) and isinstance(a_.value, ast.Name) and a_.value.id in outer_names and isinstance(a_.slice, ast.Constant) and a_.slice.value == 0:
+            holder = ("cell", a_.value.id)
+        elif isinstance(a_, ast.Name) and a_.id in outer_names and any(isinstance(x, ast.Nonlocal) and a_.id in x.names for x in ast.walk(tc.node)):
+            holder = ("nonlocal", a_.id)
+    ctx.require(holder is not None, "_start: the candidate holder shared by transport_check and attempt_connect not found")
+    cand_kind, cand_name = holder
+
+    def cand_env(value):
+        return [value] if cand_kind == "cell" else value
+
+    def cand_get(t_, cellobj):
+        return cellobj[0] if cand_kind == "cell" else t_.env.get(cand_name)
     body = [x for x in tc.node.body if not (isinstance(x, ast.Expr) and isinstance(x.value, ast.Constant))]
     problems = []
     try:
@@ -347,7 +359,7 @@ def rule_loop(ctx):
                 cyc = itertools.cycle(ts)
                 for _ in range(k):
                     next(cyc)
-                cell = [0]
+                cell = cand_env(0)
                 calls = []
 
                 def default(f_, a_, k_=None):
@@ -368,14 +380,14 @@ def rule_loop(ctx):
                     problems.append(f"{name}: transport_check ends with {r[1]}")
                     continue
                 if not any(flags):
-                    if not (len(rejected) == 1 and rejected[0][0] is env["self._done_f"] and not slept and cell == [0]):
+                    if not (len(rejected) == 1 and rejected[0][0] is env["self._done_f"] and not slept and cand_get(t, cell) == 0):
                         problems.append(f"{name}: exhausted, but start() rejected {len(rejected)}x and {len(slept)} delay(s) armed")
                     continue
                 want = next(ts[(k + j) % 3] for j in range(3) if flags[(k + j) % 3])
                 if rejected:
                     problems.append(f"{name}: start() is failed although {want.name} has attempts left")
-                if cell[0] is not want:
-                    problems.append(f"{name}: candidate is {cell[0]}, expected {want.name} (next in round-robin order that can reconnect)")
+                if cand_get(t, cell) is not want:
+                    problems.append(f"{name}: candidate is {cand_get(t, cell)}, expected {want.name} (next in round-robin order that can reconnect)")
                 if not (len(slept) == 1 and slept[0][0] == 100 + want.attrs["idx"]):
                     problems.append(f"{name}: delay armed {[a[0] for a in slept]}, expected next_delay() of {want.name}")
                 df = t.env.get("self._delay_f") or env["self"].attrs.get("_delay_f")
@@ -395,7 +407,7 @@ def rule_loop(ctx):
     # attempt_connect: connects the candidate, success -> session_done, failure -> connect_error
     co = [c for c in calls_in(ac.node) if any(is_self_attr(a, "_connect_once") for a in c.args) or self_call(c, "_connect_once")]
     ctx.require(len(co) == 1, "attempt_connect: _connect_once hand-off not found")
-    ctx.ob("attempt_connect connects the chosen candidate", "transport_candidate[0]" in [norm.text(a) for a in co[0].args], "another transport is connected", ac.loc(co[0]))
+    ctx.ob("attempt_connect connects the chosen candidate", (f"{cand_name}[0]" if cand_kind == "cell" else cand_name) in [norm.text(a) for a in co[0].args], "another transport is connected", ac.loc(co[0]))
     acb = [c for c in calls_in(ac.node) if call_name(c) == "txaio.add_callbacks" and norm.text(c.args[0]) == "connect_f"]
     ok = len(acb) == 1 and [norm.text(a) for a in acb[0].args[1:]] == ["session_done", "connect_error"]
     ctx.ob("connection result: success -> session_done, failure -> connect_error", ok, "continuations of the connect future changed", ac.loc())
@@ -444,7 +456,7 @@ def rule_loop(ctx):
                             asked.append(a_[0])
                             return classifier
                         return Sym(f"<{f_}>")
-                    env = {cand_name: [candidate], "self": Sym("component"), "self._is_fatal": (Sym("classifier") if classifier is not None else None),
+                    env = {cand_name: cand_env(candidate), "self": Sym("component"), "self._is_fatal": (Sym("classifier") if classifier is not None else None),
                            hce.params()[0]: Sym("failure", value=err_value), "transport_check": Sym("transport_check"),
                            "ApplicationError": Sym("ApplicationError"), "OSError": Sym("OSError")}
                     t = Tiny(env, default_call=default)
